@@ -10,6 +10,7 @@ the generated obligations.  Exit 0: held; exit 1 + "VIOLATION property=<id> repl
 exit 2: tool error (never a violation).
 """
 import json, os, re, shutil, subprocess, sys, tempfile, time, glob, hashlib
+sys.path.insert(0, os.path.dirname(os.path.abspath(__file__)))
 from concurrent.futures import ThreadPoolExecutor
 
 VERIF = os.path.dirname(os.path.dirname(os.path.abspath(__file__)))
@@ -92,6 +93,18 @@ class Run:
 
     def _execute(self, tmp):
         s = self.s
+        if s.get("scan") is not None:
+            import static_scan
+            cfgdir, self.cfgsrc = config_h_dir(tmp)
+            incs = ["-I" + cfgdir, "-I" + REPO + "/src", "-I" + REPO]
+            found, err = static_scan.scan(REPO, s["sources"], incs, s["scan"].get("allow", []))
+            if found is None: self.error = err; return
+            self.cmds.append("goto-cc -c <each source> ; goto-instrument --show-symbol-table --json-ui")
+            res = [{"property": "static_scan.%s" % f["symbol"], "description": "static-lifetime mutable object '%s' (%s:%s) is shared by all threads of the process and not protected by the library's lock" % (f["symbol"], f["file"], f["line"]),
+                    "status": "SUCCESS" if f["allowed"] else "FAILURE", "sourceLocation": {"file": REPO + "/" + f["file"], "function": f["symbol"].split("::")[0], "line": f["line"]}} for f in found]
+            res.append({"property": "static_scan.units", "description": "symbol tables of %d translation units scanned for process-wide mutable state" % len(s["sources"]), "status": "SUCCESS", "sourceLocation": {"file": "", "function": ""}})
+            self.results = res; self.traces = {}; self.cbmc_cmd = ["goto-instrument", "--show-symbol-table"]
+            return
         if not self.gen(tmp): return
         cfgdir, self.cfgsrc = config_h_dir(tmp)
         if s.get("config"): cfgdir = derive_config(tmp, s["config"]); self.cfgsrc = "generated variant '%s' of config.h" % s["config"]
